@@ -264,6 +264,12 @@ void op_size(cfg_t c, uint64_t len) {
     int f = liberasurecode_get_fragment_size(desc, (int)len);
     int mn = liberasurecode_get_minimum_encode_size(desc);
     res_end("%d %d %d", a, f, mn);
+    long unit = (long)c.k * cfg_wbytes(c);
+    if (a < 0 || (uint64_t)a < len || a % unit != 0 || (uint64_t)a >= len + (uint64_t)unit)
+        oracle_fail("C08", "aligned_data_size(%llu) = %d is not the least multiple of k*w/8 = %ld that is >= the length: be=%d k=%d", (unsigned long long)len, a, unit, c.be, c.k);
+    int a1 = liberasurecode_get_aligned_data_size(desc, 1);
+    if (mn != a1) oracle_fail("C08", "minimum_encode_size %d != aligned_data_size(1) %d", mn, a1);
+    if ((long)f * c.k < (long)len || (long)f * c.k >= (long)len + unit) oracle_fail("C08", "fragment_size(%llu) = %d is not aligned/k: be=%d k=%d", (unsigned long long)len, f, c.be, c.k);
 }
 
 typedef struct { int be, k, m, hd, w; } create_a;
